@@ -70,11 +70,14 @@ M("c08-lifetime-unit", "C08", "flexstack/geonet/location_table.py",
   "lifetime_ms = self.mib.itsGnLifetimeLocTE * 1000", "lifetime_ms = self.mib.itsGnLifetimeLocTE * 100", "lifetime taken in 1/10 s")
 M("c08-no-dad", "C08", "flexstack/geonet/router.py",
   "            self.duplicate_address_detection(ls_reply_header.so_pv.gn_addr)\n", "", "DAD skipped for LS reply")
-M("c08-ahead-purged", "C08", "flexstack/geonet/location_table.py",
-  "                or entry.position_vector.tst > current_time\n", "", "entries ahead of the clock purged again")
-M("c08-guc-neighbour", "C08", "flexstack/geonet/location_table.py",
-  "        # IS_NEIGHBOUR = FALSE only for new entry (NOTE 2: unchanged otherwise)\n        if is_new_entry:\n            entry.is_neighbour = False",
-  "        entry.is_neighbour = not is_new_entry", "GUC marks an existing entry as neighbour")
+M('c08-ahead-purged', 'C08', 'flexstack/geonet/location_table.py',
+  '                    entry.position_vector.tst > current_time\n                    or (current_time - entry.position_vector.tst) <= lifetime_ms',
+  '                    (current_time - entry.position_vector.tst) <= lifetime_ms',
+  'entries ahead of the clock purged again')
+M('c08-guc-neighbour', 'C08', 'flexstack/geonet/location_table.py',
+  '            # IS_NEIGHBOUR = FALSE only for new entry (NOTE 2: unchanged otherwise)\n            if is_new_entry:\n                entry.is_neighbour = False',
+  '            entry.is_neighbour = not is_new_entry',
+  'GUC marks an existing entry as neighbour')
 
 # ---------------------------------------------------------------- C07
 M("c07-rect-max", "C07", "flexstack/geonet/router.py",
@@ -160,8 +163,10 @@ M("c12-never-expire", "C12", "flexstack/facilities/local_dynamic_map/ldm_mainten
   "< TimestampIts.initialize_with_utc_timestamp_seconds(int(TimeService.time())):", "> TimestampIts.initialize_with_utc_timestamp_seconds(int(TimeService.time())):", "expiry comparison reversed")
 M("c12-dereg-all", "C12", "flexstack/facilities/local_dynamic_map/ldm_service.py",
   "            self.data_consumer_its_aid.discard(its_aid)", "            self.data_consumer_its_aid.discard(its_aid)\n            self.data_provider_its_aid.discard(its_aid)", "deregistering a consumer also deregisters the provider with the same id")
-M("c12-delete-revert", "C12", "flexstack/facilities/local_dynamic_map/if_ldm_3.py",
-  "            if stored is not None:\n                self.ldm_service.ldm_maintenance.del_provider_data(stored)", "            self.ldm_service.del_provider_data(data_provider.data_object_id)", "revert of the delete fix")
+M('c12-delete-revert', 'C12', 'flexstack/facilities/local_dynamic_map/if_ldm_3.py',
+  '                if self.ldm_service.ldm_maintenance.del_provider_data(stored) is not False:',
+  '                if self.ldm_service.del_provider_data(data_provider.data_object_id) is not False:',
+  'revert of the delete fix')
 
 # ---------------------------------------------------------------- C13
 M("c13-ge", "C13", "flexstack/facilities/local_dynamic_map/ldm_constants.py", "    \">=\": lambda x, y: x >= y,", "    \">=\": lambda x, y: x > y,", ">= evaluated as >")
@@ -189,16 +194,20 @@ M("c14-interval", "C14", "flexstack/facilities/local_dynamic_map/ldm_service.py"
   "            if notify_time is not None and last_checked + notify_time > current_time:\n                return", "            if notify_time is not None and last_checked + notify_time + notify_time > current_time:\n                return", "notification interval doubled")
 M("c14-no-interval", "C14", "flexstack/facilities/local_dynamic_map/ldm_service.py",
   "            if notify_time is not None and last_checked + notify_time > current_time:\n                return", "            if False:\n                return", "notification interval ignored")
-M("c14-unsub", "C14", "flexstack/facilities/local_dynamic_map/ldm_service.py",
-  "        for subscription in to_remove:\n            self.remove_subscription(subscription)\n        return bool(to_remove)", "        return bool(to_remove)", "unsubscribe reports success but keeps the subscription")
+M('c14-unsub', 'C14', 'flexstack/facilities/local_dynamic_map/ldm_service.py',
+  '        for subscription in to_remove:\n            if self.remove_subscription(subscription):\n                removed = True\n        return removed',
+  '        return bool(to_remove)',
+  'unsubscribe reports success but keeps the subscription')
 M("c14-order", "C14", "flexstack/facilities/local_dynamic_map/ldm_service.py",
   "                if ordered_sequences:\n                    ordered_search_result = ordered_sequences[0]", "                if ordered_sequences:\n                    ordered_search_result = search_result", "subscription order ignored")
 M("c14-types", "C14", "flexstack/facilities/local_dynamic_map/ldm_service.py",
   "            subscription.subscription_request.data_object_type,\n            subscription.subscription_request.priority,", "            tuple(range(1, 22)),\n            subscription.subscription_request.priority,", "subscription type selection ignored")
 M("c14-result-code", "C14", "flexstack/facilities/local_dynamic_map/if_ldm_4.py",
   "                SubscribeDataobjectsResult.INVALID_MULTIPLICITY,", "                SubscribeDataobjectsResult.INVALID_NOTIFICATION_INTERVAL,", "wrong result code for invalid multiplicity")
-M("c14-dereg-revert", "C14", "flexstack/facilities/local_dynamic_map/ldm_service.py",
-  "        for subscription in stale:\n            self.remove_subscription(subscription)\n", "", "revert: subscriptions survive deregistration")
+M('c14-dereg-revert', 'C14', 'flexstack/facilities/local_dynamic_map/ldm_service.py',
+  '            for subscription in stale:\n                self.remove_subscription(subscription)\n        return registered',
+  '        return registered',
+  'revert: subscriptions survive deregistration')
 M("c14-last-shared", "C14", "flexstack/facilities/local_dynamic_map/ldm_service.py",
   "                return\n            self.last_checked_subscriptions_time[subscription] = current_time\n", "                return\n            for other in self.last_checked_subscriptions_time:\n                self.last_checked_subscriptions_time[other] = current_time\n", "a notification resets the interval of every subscription")
 M("c14-snapshot-revert", "C14", "flexstack/facilities/local_dynamic_map/ldm_service.py",
@@ -218,8 +227,7 @@ M("c08-ls-keeps-stale-revert", "C08", "flexstack/geonet/location_table.py",
 M("c16-dereg-subs-outside-lock-revert", "C16", "flexstack/facilities/local_dynamic_map/ldm_service.py",
   "            # In the same critical section: nobody sees the consumer gone but part of its subscriptions left.\n            for subscription in stale:\n                self.remove_subscription(subscription)\n        return registered",
   "        for subscription in stale:\n            self.remove_subscription(subscription)\n        return registered",
-  "revert: deregistration removes the consumer's subscriptions outside the lock, one by one (needs the thorough tier: found there in 438 of 1.7 M schedules, missed by the quick budget)",
-  tier="thorough")
+  "revert: deregistration removes the consumer's subscriptions outside the lock, one by one")
 
 # ---------------------------------------------------------------- C09
 M("c09-no-sig", "C09", "flexstack/security/certificate.py",
@@ -331,8 +339,10 @@ M("c11-heading-unit", "C11", "flexstack/facilities/ca_basic_service/cam_transmis
   "            ] = int(tpv[\"track\"] * 10)", "            ] = int(tpv[\"track\"])", "CAM heading in degrees instead of 0.1 degree")
 M("c11-gdt", "C11", "flexstack/facilities/ca_basic_service/cam_transmission_management.py",
   "        if transformed_timestamp <= utc_timestamp_in_millis:\n            return transformed_timestamp", "        if transformed_timestamp < utc_timestamp_in_millis - 1000:\n            return transformed_timestamp", "generation time reconstruction off by a cycle for fresh messages")
-M("c11-cluster-revert", "C11", "flexstack/facilities/vru_awareness_service/vru_clustering.py",
-  "                \"clusterBoundingBoxShape\": (\n                    \"circular\",\n                    {\"radius\": max(1, int(self._cluster.radius))},\n                ),", "                \"clusterBoundingBoxShape\": {\"circular\": {\"radius\": max(1, int(self._cluster.radius))}},", "revert: bounding box as dict")
+M('c11-cluster-revert', 'C11', 'flexstack/facilities/vru_awareness_service/vru_clustering.py',
+  '                params["vruClusterInformationContainer"] = self._cluster_information_for_coder(\n                    cluster_info)',
+  '                params["vruClusterInformationContainer"] = cluster_info',
+  'revert: bounding box as dict')
 M("c11-denm-area", "C11", "flexstack/facilities/decentralized_environmental_notification_service/denm_transmission_management.py",
   "                longitude=denm_to_send.denm[\"denm\"][\"management\"][\n                    \"eventPosition\"\n                ][\"longitude\"],", "                longitude=denm_to_send.denm[\"denm\"][\"management\"][\n                    \"eventPosition\"\n                ][\"latitude\"],", "DENM area longitude taken from the latitude")
 M("c11-role-revert", "C11", "flexstack/facilities/ca_basic_service/cam_transmission_management.py",
@@ -461,3 +471,36 @@ M("c16-unsub-double-ack", "C16", LD + "ldm_service.py",
   "revert: every concurrent unsubscribe of one subscription reports success")
 M("c10-vam-gdt-wrap", "C10", "flexstack/facilities/vru_awareness_service/vam_transmission_management.py",
   "            or long_pause\n", "", "revert: elapsed time since the last VAM taken from wrapped generationDeltaTime only")
+
+
+# ---------------------------------------------------------------- refreshed after later fixes moved the code
+def _override(id, **kw):
+    for m in MUTANTS:
+        if m["id"] == id:
+            m.update(kw)
+            return
+    raise KeyError(id)
+
+
+def _drop(id):
+    MUTANTS[:] = [m for m in MUTANTS if m["id"] != id]
+
+
+_override("c05-learn-skip", file="flexstack/security/verify_service.py",
+          old="                self.certificate_library.add_authorization_ticket(authorization_ticket)\n", new="")
+_drop("c10-vam-min-revert")      # the repair it reverted was withdrawn (known finding C10:vam-closer-than-T_GenVamMin)
+_override("c11-cluster-revert", file="flexstack/facilities/vru_awareness_service/vam_transmission_management.py",
+          old="                params[\"vruClusterInformationContainer\"] = self._cluster_information_for_coder(\n                    cluster_info)",
+          new="                params[\"vruClusterInformationContainer\"] = cluster_info")
+_override("c15-cbf-timeout-nocheck",
+          old="            timer = self._cbf_buffer.get(cbf_key)\n            if timer is None:\n                return  # duplicate already arrived and discarded us\n",
+          new="            timer = self._cbf_buffer.get(cbf_key, object())\n")
+_override("c15-cbf-timeout-check-unlocked",
+          old="        with self._cbf_lock:\n            timer = self._cbf_buffer.get(cbf_key)\n            if timer is None:\n                return  # duplicate already arrived and discarded us\n",
+          new="        if cbf_key not in self._cbf_buffer:\n            return\n        with self._cbf_lock:\n            timer = self._cbf_buffer.get(cbf_key, object())\n")
+_override("c15-cbf-start-before-insert",
+          old="            timer.cbf_token = token  # lets the expiry tell its own buffered copy from a later one\n            self._cbf_buffer[cbf_key] = timer\n        timer.start()",
+          new="            timer.cbf_token = token  # lets the expiry tell its own buffered copy from a later one\n            timer.start()\n        with self._cbf_lock:\n            self._cbf_buffer[cbf_key] = timer")
+_override("c16-remove-sub-unlocked",
+          old="        with self._lock:\n            removed = subscription in self.subscriptions\n",
+          new="        if True:\n            removed = subscription in self.subscriptions\n")
